@@ -126,6 +126,161 @@ def run_case(arg):
         shutil.rmtree(root, ignore_errors=True)
 
 
+# ---------------------------------------------------------------- lifecycle
+LIFE_GEN = ('CONSTANTS MaxSteps = %d NSeeds = %d SeedBase = %d\n'
+            'SPECIFICATION GenSpec\nINVARIANT Emit\nCHECK_DEADLOCK FALSE\n')
+LIFE_TRACE = ('CONSTANT MaxSteps = 1000\nSPECIFICATION TraceSpec\n'
+              'CHECK_DEADLOCK FALSE\n')
+
+
+def soak(hist):
+    """one walk of Lifecycle.tla on a real project with the real toolchain"""
+    import regen
+    import subprocess
+    files = {
+        'build.bfg': "project('p', version='1.0')\n"
+                     "lib = static_library('util/lib/u', ['util/u.c'])\n"
+                     "exe = executable('bin/prog', ['main.c', 'sub/x.c'] + "
+                     "find_files('gen/*.c'), libs=[lib])\n"
+                     "copy_file('data.txt')\n"
+                     "install(exe)\n",
+        'main.c': '#include <stdio.h>\nint u(void);int x(void);\n'
+                  'int main(void){printf("%d\\n", u()+x());return 0;}\n',
+        'util/u.c': 'int u(void){return 1;}\n',
+        'sub/x.c': 'int x(void){return 2;}\n',
+        'gen/g0.c': 'int g0(void){return 0;}\n',
+        'data.txt': 'd\n'}
+    p = regen.Proj(files)
+    try:
+        log = os.path.join(p.root, 'tools.log')
+        for tool, real in (('cclog', 'gcc'), ('arlog', 'ar')):
+            w = os.path.join(p.root, tool)
+            with open(w, 'w') as f:
+                f.write('#!/bin/sh\ncase " $* " in *" -c "*|*" cr "*) '
+                        'echo %s >> %s;; esac\nexec %s "$@"\n' % (tool, log,
+                                                                 real))
+            os.chmod(w, 0o755)
+        p.env['CC'] = os.path.join(p.root, 'cclog')
+        p.env['AR'] = os.path.join(p.root, 'arlog')
+        p.env.pop('CXX', None)
+        stage = os.path.join(p.root, 'stage dir')
+        events = []
+        srcsnap = None
+        nsrc = 0
+
+        def outside():
+            return sorted(set(os.listdir(p.root)) - {
+                'src', 'build', 'stage dir', 'cclog', 'arlog', 'tools.log',
+                'moved build'}) != []
+
+        def staged():
+            n = 0
+            for dp, dns, fns in os.walk(stage):
+                n += len(fns)
+            return n
+
+        def prog_ok(bld):
+            exe = os.path.join(bld, 'bin', 'prog')
+            if not os.path.exists(exe):
+                return False
+            r = subprocess.run([exe], capture_output=True, text=True,
+                               env={'PATH': '/usr/bin:/bin'})
+            return r.returncode == 0 and r.stdout.strip() == '3'
+        for act in hist:
+            ev = {'act': act, 'exit': 0, 'src_changed': False,
+                  'outside': False, 'ran': 0, 'products_ok': True,
+                  'staged': 0}
+            if os.path.exists(log):
+                os.remove(log)
+            user_edit = False
+            if act == 'configure':
+                rc, out = p.configure()
+                srcsnap = tree_snapshot(p.src)
+            elif act == 'edit_source':
+                p.tick()
+                os.utime(os.path.join(p.src, 'main.c'))
+                rc, out, user_edit = 0, '', True
+            elif act == 'edit_script':
+                p.tick()
+                nsrc += 1
+                with open(os.path.join(p.src, 'build.bfg'), 'a') as f:
+                    f.write("command('c%d', cmd=['true'])\n" % nsrc)
+                rc, out, user_edit = 0, '', True
+            elif act == 'add_source':
+                p.tick()
+                nsrc += 1
+                regen.write(os.path.join(p.src, 'gen', 'n%d.c' % nsrc),
+                            'int n%d(void){return 0;}\n' % nsrc)
+                rc, out, user_edit = 0, '', True
+            elif act == 'build':
+                p.tick()
+                rc, out = p.tool()
+                ev['products_ok'] = prog_ok(p.bld)
+            elif act == 'regenerate':
+                rc, out = run(['/venv/bin/bfg9000', 'regenerate', p.bld],
+                              cwd=p.root, env=p.env)
+            elif act == 'clean':
+                rc, out = p.tool(['clean'])
+            elif act == 'dist':
+                rc, out = p.tool(['dist'])
+            elif act == 'install':
+                p.tick()
+                rc, out = p.tool(['install', 'DESTDIR=' + stage])
+                ev['products_ok'] = prog_ok(p.bld)
+                ev['staged'] = staged()
+            elif act == 'uninstall':
+                rc, out = p.tool(['uninstall', 'DESTDIR=' + stage])
+                ev['staged'] = staged()
+            elif act == 'move_builddir':
+                moved = os.path.join(p.root, 'moved build')
+                os.rename(p.bld, moved)
+                ev['products_ok'] = prog_ok(moved)
+                os.rename(moved, p.bld)
+                rc, out = 0, ''
+            ev['exit'] = rc
+            if os.path.exists(log):
+                ev['ran'] = len(open(log).read().split())
+            if user_edit:
+                srcsnap = tree_snapshot(p.src)
+            elif srcsnap is not None:
+                ev['src_changed'] = tree_snapshot(p.src) != srcsnap
+            ev['outside'] = outside()
+            ev['note'] = out[-300:] if rc else ''
+            events.append(ev)
+        return events
+    finally:
+        p.close()
+
+
+def lifecycle(ck):
+    n, steps = (16, 9) if ck.quick else (400, 14)
+    g = tlc_ok('Lifecycle_Gen', LIFE_GEN % (steps, n, ck.seed))
+    ck.add_model(g, 'Lifecycle_Gen: %d walks of %d steps' % (n, steps))
+    walks = [p for p in g.prints if isinstance(p, list) and p and
+             isinstance(p[0], str)]
+    if len(walks) < n // 2:
+        raise MachineryError('Lifecycle_Gen gave %d walks\n%s' % (len(walks),
+                                                                  g.tail()))
+    res = pmap(soak, walks, jobs=12)
+    traces = [{'id': i + 1, 'events': [
+        {k: v for k, v in e.items() if k != 'note'} for e in ev]}
+        for i, ev in enumerate(res)]
+    rej, st = validate_traces('Lifecycle_Trace', LIFE_TRACE, traces, chunk=50)
+    ck.traces += len(traces)
+    ck.states += st['distinct']
+    ck.transitions += st['generated']
+    for tid, info in sorted(rej.items()):
+        ev = res[tid - 1][info[1] - 1]
+        prev = [e['act'] for e in res[tid - 1][:info[1] - 1]][-2:]
+        ck.report('C05:lifecycle:%s:%s:after=%s' % (info[0], ev['act'],
+                                                    '+'.join(prev)),
+                  '%s at %s after %s: %s' % (info[0], ev['act'], prev,
+                                             json.dumps(ev)[:400]),
+                  {'walk': walks[tid - 1], 'events': res[tid - 1][:info[1]]})
+    ck.note('lifecycle_walks', len(walks))
+    ck.sample({'lifecycle_walk': walks[0]})
+
+
 def main(argv):
     ck = Check('C05', argv)
     # 1. design model: injective, clash exactly on extension-only difference
@@ -184,6 +339,7 @@ def main(argv):
                       [ref(s) for s in ev['sources']]), ev)
     for ev, _ in res[:3]:
         ck.sample(ev)
+    lifecycle(ck)
     nontriv = sum(1 for c in cases if len({json.dumps(s, sort_keys=True)
                                            for s in c['sources']}) > 1)
     ck.assumptions += ['component names: %s; stems: %s; extensions: %s; '
